@@ -2,4 +2,4 @@
     brings every file the extraction reads up to date (Extract.v itself is run by
     ocaml/build.sh outside the Makefile). *)
 From Crdt Require Import model.VClock model.Simple model.Orswot model.MVReg model.Map
-  model.Identifier model.List model.Merkle model.Serde extract.Glue spec.VClockSpec spec.System spec.OrswotSpec spec.Specs spec.MVRegSystem spec.MapSpec spec.MapOrswotSpec spec.MapMapOrswotSpec spec.MapMapOrswotNKSpec spec.MapOrswotKM spec.MapOrswotKMN.
+  model.Identifier model.List model.Merkle model.Serde extract.Glue spec.VClockSpec spec.System spec.OrswotSpec spec.Specs spec.MVRegSystem spec.MapSpec spec.MapOrswotSpec spec.MapMapOrswotSpec spec.MapMapOrswotNKSpec spec.MapOrswotKM spec.MapOrswotKMN spec.MapMVRegSpec.
